@@ -307,7 +307,7 @@ def from_bytes_model(b, byteorder='big', *, signed=False):
     cache = e.persist.setdefault('from_bytes', {})
     hit = cache.get(ck)
     if hit is not None:
-        return SymInt(hit[0], hit[1])
+        return SymInt(hit[0], hit[1], 8 * n)
     res = _from_bytes_build(items, n, signed)
     if len(cache) > 20000:
         cache.clear()
@@ -327,7 +327,7 @@ def _from_bytes_build(items, n, signed):
     t = z3.Sum(terms) if len(terms) > 1 else terms[0]
     if signed:
         t = z3.If(zi(items[0]) >= 128, t - 256 ** n, t)
-        return SymInt(t)
+        return SymInt(t, None, 8 * n)
     return SymInt(t, 8 * n)
 
 
@@ -360,11 +360,14 @@ def int_to_bytes_model(v, length=1, byteorder='big', signed=False):
     if hit is not None and hit[0].eq(v.t):
         ds = hit[1]
     else:
+        from .core import ABSTRACT
         ds = [e.fresh_int('d') for _ in range(length)]
-        for d in ds:
-            e.add(z3.And(d >= 0, d <= 255))
-        e.add(v.t == z3.Sum([d * (256 ** (length - 1 - i)) for i, d in enumerate(ds)]) if length > 1
-              else v.t == ds[0])
+        e.add(z3.And(*[z3.And(d >= 0, d <= 255) for d in ds]), simplified=True)
+        if ABSTRACT['digits'] and length >= 8:
+            e.run_cache['abstracted'] = True
+        else:
+            e.add(v.t == z3.Sum([d * (256 ** (length - 1 - i)) for i, d in enumerate(ds)]) if length > 1
+                  else v.t == ds[0])
         e.run_cache[key] = (v.t, ds)
     items = ds if byteorder == 'big' else ds[::-1]
     return mk_bytes(items)
@@ -379,3 +382,23 @@ def ite_bytes(c, a, b):
         raise TypeError('ite_bytes: different lengths')
     return mk_bytes([x if (isinstance(x, int) and isinstance(y, int) and x == y)
                      else z3.If(c.t, zi(x), zi(y)) for x, y in zip(ia, ib)])
+
+
+class SymSized:
+    """a bytes value of symbolic length and unspecified content (result of a stubbed allocation whose size is
+    not worth enumerating); supports only len() (through the injected len) and type()"""
+    _sx_symbolic = True
+    _sx_view = True
+
+    def __init__(self, length):
+        self._len = length
+
+    def length(self):
+        return self._len
+
+    def model_value(self, model):
+        n = model.eval(zi(self._len), model_completion=True).as_long()
+        return {'bytes_of_length': n}
+
+    def __len__(self):
+        return int(self._len)
